@@ -218,6 +218,12 @@ def menu(gen):
         # handshake from its current state, and frames received afterwards count exactly as before
         w.spawn(w.at.shutdown())
         w.loop.run_until(w.loop.time() + 1.0)
+        # while the client is away the installation moves on (zone 0 and AC 0 change at the wall panel)
+        z0 = w.console.state["zone"][0]
+        z0.update({"power": "on", "percent": 80, "method": "temperature", "spill": True} if z0["percent"] != 80 else
+                  {"power": "off", "percent": 35, "method": "percent", "spill": False})
+        a0 = w.console.state["ac"][0]
+        a0["mode"] = "fan" if a0["mode"] != "fan" else "cool"
         w.init_result.clear()
         w.start_init()
         w.loop.run_until(w.loop.time() + 1.0)
